@@ -234,11 +234,15 @@ impl<'a> AnyCache<'a> {
         match entry {
             Ok(e) => {
                 handle.write(e);
+                #[cfg(assets_manager_verif)]
+                crate::verif::emit("ReloadOk", || format!("{},\"deps\":{}", crate::verif::key(handle.id(), typ.type_id), crate::verif::deps(&deps)));
                 log::info!("Reloading \"{}\"", handle.id());
                 Some(deps)
             }
             Err(err) => {
                 log::warn!("Error reloading \"{}\": {}", err.id(), err.reason());
+                #[cfg(assets_manager_verif)]
+                crate::verif::emit("ReloadErr", || crate::verif::key(handle.id(), typ.type_id));
                 None
             }
         }
